@@ -62,8 +62,15 @@ RULE = ('seeded histories as in C01 restricted to queue mode (with and without s
 
 
 def correspondence(ctx):
-    return syscheck.run_histories(ctx, PID, 160, 4000, RULE)
+    res = syscheck.run_histories(ctx, PID, 160, 4000, RULE)
+    # end-to-end phase: direct merges (queue skipped) decided by the composed model from the host's build table
+    from . import evalsys
+    evalsys.phase(ctx, res, PID)
+    return res
 
 
 def replay(ctx, payload):
+    from . import evalsys
+    if evalsys.is_mine(payload):
+        return evalsys.replay(ctx, payload)
     return syscheck.replay_history(ctx, PID, payload)
